@@ -865,14 +865,19 @@ func (c *c19Check) runTestHistory(seed, run uint64, t *tape.Tape, s *C19Stats) [
 	// history files must pass (RunTest stops at the first failing file), so they only define things
 	n := 1 + t.Intn(3)
 	var hist []string
+	// a library file next to the tests, pulled in by relative import / invite!
+	lib := "libval := 41\npx := \"from lib\"\nlibf := {|a| a + libval}\n"
+	os.WriteFile(filepath.Join(dirH, "a0_lib.pangaea"), []byte(lib), 0o644)
 	for i := 0; i < n; i++ {
 		src := []string{
+			"invite!(\"./a0_lib\")\nlibf(1).p\nq := libval\n",
+			"m := import(\"./a0_lib\")\nm.libval.p\nprobe := m.px\n",
 			"px := 99\npf := {|a| a * 100}\npobj := {name: \"hist\"}\nprobe := 3\n",
 			"1.try.{|x| _}.A\nhx1 := 5\n",
 			"Int.bear({twice: m{self * 2}})\nq := 7\n",
 			"S := {|i| i}\nS1 := 4\n\"hist\".p\n",
-		}[t.Intn(4)]
-		os.WriteFile(filepath.Join(dirH, fmt.Sprintf("a%d_hist_test.pangaea", i)), []byte(src), 0o644)
+		}[t.Intn(6)]
+		os.WriteFile(filepath.Join(dirH, fmt.Sprintf("a%d_hist_test.pangaea", i+1)), []byte(src), 0o644)
 		hist = append(hist, src)
 		s.Steps++
 		s.HistKinds["runtest-file"]++
